@@ -52,8 +52,7 @@ Lemma C06_balanced_covers_small_bounded_7_proof : forall toks,
   length toks = 7 -> (forall x, In x toks -> In x small_alphabet) -> accepted_balanced toks.
 Proof. intros toks Hl Ha. exact (check_bal_meaning _ (small_check_bal toks Hl Ha)). Qed.
 
-Lemma C06_balanced_operator_expressions_proof : forall toks R,
-  Pratt.no_separators toks = true -> Pratt.pratt toks = Some R ->
+Lemma C06_balanced_operator_expressions_proof : forall toks R, Pratt.pratt toks = Some R ->
   exists root nodes t,
     parse toks = Ok (root, nodes) /\ Compile.tree_of nodes root = Some t /\
     (~ Known_C06_K1 t -> ~ Known_C06_K3 t -> ~ Known_C06_K4 t ->
@@ -62,7 +61,7 @@ Lemma C06_balanced_operator_expressions_proof : forall toks R,
        let p := prog_of_build init r in
        exists d, typed p d /\ ends_at_one p d /\ exists e, pjump p (snd r) = Some e /\ d e = Some (0, 0)).
 Proof.
-  intros toks R Hns H. destruct (operator_expression_balanced toks R Hns H) as (root & nodes & t & Hp & Ht & _ & Hb).
+  intros toks R H. destruct (operator_expression_balanced toks R H) as (root & nodes & t & Hp & Ht & _ & Hb).
   exists root, nodes, t. split; [exact Hp|]. split; [exact Ht|]. intros H1 H3 H4.
   unfold Known_C06_K1, Known_C06_K3, Known_C06_K4 in *.
   assert (Hbal : balanced t = true).
@@ -74,10 +73,9 @@ Proof.
   exact (C06_static_full_builder_proof nodes root t init lit fuel r Ht Hbal Hbd).
 Qed.
 
-Lemma C06_operator_expressions_no_K2_proof : forall toks R,
-  Pratt.no_separators toks = true -> Pratt.pratt toks = Some R ->
+Lemma C06_operator_expressions_no_K2_proof : forall toks R, Pratt.pratt toks = Some R ->
   exists root nodes t, parse toks = Ok (root, nodes) /\ Compile.tree_of nodes root = Some t /\ drops_arms t = false.
 Proof.
-  intros toks R Hns H. destruct (operator_expression_balanced toks R Hns H) as (root & nodes & t & Hp & Ht & Hd & _).
+  intros toks R H. destruct (operator_expression_balanced toks R H) as (root & nodes & t & Hp & Ht & Hd & _).
   exists root, nodes, t. auto.
 Qed.
